@@ -76,8 +76,9 @@ def gen(cs, rnd, n):
             B = [rnd.choice(A) for _ in range(nb)]      # repetitions
         elif mode < 0.55 and A:
             # every row followed by an equal but not identical one (members in another order, numbers in another spelling)
-            A = [x for r in A for x in (r, respelled(rnd, r))]
-            B = [respelled(rnd, r) for r in B]
+            # (at the seam too: whatever a stage remembers of the last row of A may not colour the first row of B)
+            A = [x for r in A for x in ((r, respelled(rnd, r)) if rnd.random() < 0.5 else (r,))]
+            B = [respelled(rnd, A[-1])] + [respelled(rnd, r) for r in B]
         da, db = PL.input_bytes(A), PL.input_bytes(B)
         cs.add({"kind": "rel", "rel": "concat", "cfg": PL.mkcfg(), "input": [], "json": js and True,
                 "runs": [{"argv": argv, "stdin": hexs(da + db)}, {"argv": argv, "stdin": hexs(da)}, {"argv": argv, "stdin": hexs(db)},
